@@ -1,3 +1,8 @@
 import Geo.Props.C14
 open Geo
-#print axioms C14_placeholder
+#print axioms T14_hat_is_code
+#print axioms T14_1_line_reduction
+#print axioms T14_2_decomposition
+#print axioms T14_3_secant
+#print axioms T14_5_tangent
+#print axioms T14_5_polar_reciprocity
